@@ -97,6 +97,7 @@ func explorePairs(p *an.Prog, f *an.Fn) *pairResult {
 				for k, v := range st.Regs {
 					snap[k] = v
 				}
+				snap["__facts"] = strings.Join(an.Facts(st), " ; ")
 				res.callRegs[call] = append(res.callRegs[call], snap)
 			}
 			switch an.CalleeName(info, call) {
